@@ -139,7 +139,7 @@ def run_case(case):
     if not simrun.admissible(npts, nprocs) or nprocs[0] > npts[1]:
         return result(SKIP, what="process grid not admissible")
     P = nprocs[0] * nprocs[1]
-    c = simrun.small_constants(npts, seed=case["seed"] % 1000, dt=case["dt"])
+    c = simrun.small_constants(npts, seed=case["seed"] % 1000, dt=case["dt"], offsets=True)
     eta, bs, breaks = pg.make_space(spl, c.npts, c.splineDegrees, pg.std_domain(c))
     rs = np.random.RandomState(case["seed"] % (1 << 31))
     F = rs.standard_normal(npts)
